@@ -78,7 +78,11 @@ def run_case(case):
             res.label("insert_at_boundary")
         if not newc and ee > s:
             res.label("empty_new_with_range")
-        got, err = call(lambda: f.splice(new, s) if e is None else f.splice(new, s, e))
+        kw = (s + ee + len(newc)) % 3  # positional / keyword / mixed spelling of the same call
+        if e is None:
+            got, err = call(lambda: f.splice(new, s) if kw == 0 else f.splice(new_str=new, start=s) if kw == 1 else f.splice(new, start=s))
+        else:
+            got, err = call(lambda: f.splice(new, s, e) if kw == 0 else f.splice(new_str=new, start=s, end=e) if kw == 1 else f.splice(new, s, end=e))
         if err is not None:
             res.viol("splice_raised", start=s, end=e, error=exc_str(err), desc=desc, new=case.get("new_str", case.get("new_desc", case.get("same_text"))))
             continue
